@@ -2,6 +2,8 @@
 package vutils
 
 import (
+	"fmt"
+	"runtime/debug"
 	"os"
 	"sync/atomic"
 	"time"
@@ -69,7 +71,7 @@ func GoWithRecover(handler func(), recoverHandler func(r interface{})) {
 				return
 			}
 			if r := recover(); r != nil {
-				os.Stderr.WriteString("vutils: panic in GoWithRecover goroutine\n")
+				os.Stderr.WriteString(fmt.Sprintf("vutils: panic in GoWithRecover goroutine: %v\n%s\n", r, debug.Stack()))
 				vrt.NotePanic(r)
 				if recoverHandler != nil {
 					vrt.GoNamed("recoverHandler", func() {
